@@ -8,7 +8,8 @@ from . import C14, C07
 
 ID = 'C10'
 PROFILES = ['dev']
-BOUNDS = {'linter': 'Linter::run executed twice on every two-assignment program of C19 (names / values symbolic, all line placements); any hash container iterated on the way forks over its permutations',
+BOUNDS = {'programs': '%d programs (duplicate parameters, dictionaries printed / joined / compared, join errors, unknown names, redefinition, arrays of dictionaries) parsed once and executed twice with independent iteration orders of every hash container met; lines, outcome and rendered error compared' % 9,
+          'linter': 'Linter::run executed twice on every two-assignment program of C19 (names / values symbolic, all line placements); any hash container iterated on the way forks over its permutations',
           'arrays': '0..=2 (quick 0..=1) sequence elements and 2..=3 dictionary entries (keys: the strings "m", "b" + null / any boolean / "z"; symbolic key strings make z3\'s sequence-order queries exceed the time limit: measured 288 s), values lazily symbolic of any scalar kind with opaque strings',
           'hash order': 'insertion order vs. any permutation of the dictionary (self-composition; equality with the insertion-order result for every order implies equality between any two orders)',
           'observables': 'Val::join result or error (incl. which element is blamed), Display of the array, equality verdict against a re-built copy, is-empty',
@@ -41,6 +42,12 @@ def build_array(vm, nseq, third, dict_kinds=(0, 1, 2, 3, 4)):
     """fresh object graph over *shared* symbolic terms (same names => same z3 terms)"""
     items = [sym_val(vm, f'e{i}', kinds=[0, 1, 2, 3, 4]) for i in range(nseq)]
     keys = [Adt('DictKey', 3, [SymStr(zs(KEYS3[0]))]), Adt('DictKey', 3, [SymStr(zs(KEYS3[1]))])]
+    if third == 4:      # string keys spelled like the keyword keys they sit next to ("null" / null, "true" / true): equal when rendered without quotes
+        keys = [Adt('DictKey', 3, [SymStr(zs('null'))]), Adt('DictKey', 1, []), Adt('DictKey', 3, [SymStr(zs('true'))])]
+    elif third == 5:
+        keys = [Adt('DictKey', 3, [SymStr(zs('true'))]), Adt('DictKey', 2, [True]), Adt('DictKey', 3, [SymStr(zs('mysterious'))])]
+    elif third == 6:
+        keys = [Adt('DictKey', 3, [SymStr(zs('mysterious'))]), Adt('DictKey', 0, []), Adt('DictKey', 2, [False])]
     if third == 1: keys.append(Adt('DictKey', 1, []))
     elif third == 2: keys.append(Adt('DictKey', 2, [z3.Bool('kb')]))
     elif third == 3: keys.append(Adt('DictKey', 3, [SymStr(zs(KEYS3[2]))]))
@@ -145,6 +152,42 @@ def h_lint(vm, mir):
     return []
 
 
+PROGRAMS = {
+ 'duplicate-parameters': 'Midnight takes X and Y and X and Y\ngive back 1\n\nsay "before"\nsay Midnight taking 1, 2, 3, 4\n',
+ 'duplicate-parameters-3': 'Midnight takes X, Y, Z, Z, Y, X\ngive back 1\n\nsay Midnight taking 1, 2, 3, 4, 5, 6\n',
+ 'dictionary-print': 'Let D at "b" be "1"\nLet D at "a" be "2"\nLet D at null be "3"\nsay D\n',
+ 'dictionary-join': 'Let D at "b" be "1"\nLet D at "a" be "2"\nJoin D into R\nsay R\n',
+ 'dictionary-compare': 'Let D at "b" be "1"\nLet D at "a" be "2"\nLet E at "a" be "2"\nLet E at "b" be "1"\nsay D is E\n',
+ 'dictionary-join-error': 'Let D at "b" be 1\nLet D at "a" be "x"\nLet D at true be 2\nJoin D\n',
+ 'unknown-names': 'say Ghost plus Phantom\n',
+ 'redefinition': 'F takes X\ngive back 1\n\nF takes Y\ngive back 2\n\nsay F taking 1\n',
+ 'array-in-array': 'Let D at "k" be 1\nLet D at "j" be 2\nRock L with D\nsay L\n',
+}
+
+
+def h_program(vm, mir, name):
+    """the program is parsed once and executed twice; every hash container iterated on the way forks over its permutations independently
+    in the two runs: written lines, outcome and the rendered error must be identical"""
+    from ..progrun import parse_in_vm, exec_in_vm, text_of
+    from ..std_fmt import display_to_string
+    src = PROGRAMS[name]
+    d = lambda m: {'program': src}
+    vm.describe = d
+    r = conc(vm, parse_in_vm(vm, mir, src))
+    if r.variant == 1: raise Unmodelled(f'program does not parse: {src!r}')
+    runs = []
+    for k in range(2):
+        res, o, _ = exec_in_vm(vm, mir, r.fields[0])
+        res = conc(vm, res)
+        err = text_of(vm, display_to_string(vm, 'RuntimeError', R(res.fields[0]))) if res.variant == 1 else None
+        runs.append(([text_of(vm, w) for w in o['writes']], err))
+    vm.witness = {'program-done'}
+    if runs[0] != runs[1]:
+        m = model_of(vm)
+        if m is not None: return [finding('violation', 'program-depends-on-hash-order', f'two runs of the same program gave {runs[0]} and {runs[1]}', d(m), vm.notes)]
+    return []
+
+
 def h_inventory(vm, mir):
     sites = iteration_sites(mir)
     unknown = [s for s in sites if not any(s[0].endswith('::' + k) or s[0].split('::')[-1] == k for k in KNOWN_SITES)]
@@ -157,7 +200,9 @@ def h_inventory(vm, mir):
 def jobs(ctx, tier):
     mir = ctx.mir('dev')
     js = [Job('inventory', h_inventory, (mir,), witness=['inventory-done']), Job('lint-report', h_lint, (mir,), witness=['lint-done'], str_mode='bounded', weight=10, fuel=12_000_000)]
-    for third in range(4):
+    for name in PROGRAMS:
+        js.append(Job(f'program/{name}', h_program, (mir, name), witness=['program-done'], str_mode='bounded', weight=8, fuel=20_000_000))
+    for third in range(7):
         js.append(Job(f'join/third-key-{third}', h_join, (mir, third), witness=['join-done'], weight=5))
         js.append(Job(f'display/third-key-{third}', h_display, (mir, third), witness=['display-done'], weight=5))
     return js
@@ -206,6 +251,17 @@ def replay(ctx, f):
     """run the generated program in many fresh processes (each has its own hash seed) until two outcomes differ"""
     cex = f.get('cex') or {}
     out = {'reproduced': None}
+    if 'program' in cex and 'a' not in cex:
+        from ..native import Native
+        seen = set()
+        for prof in ('dev', 'release'):
+            for i in range(48):
+                nat = Native(ctx.ws, prof); r = nat.call({'op': 'program', 'src': cex['program'], 'stdin': ''}); nat.close()
+                seen.add(json.dumps({k: r.get(k) for k in ('stdout', 'result', 'error_display', 'panic')}, sort_keys=True))
+                if len(seen) > 1: break
+            if len(seen) > 1: break
+        out['distinct_outcomes'] = sorted(seen)[:4]; out['reproduced'] = len(seen) > 1
+        return out
     if 'a' not in cex: return out
     from ..native import Native
     seen = set()
